@@ -29,7 +29,7 @@ PROFILES = {
     'compress_big': dict(pool=6, sizes='chunky', nops=(5, 10), two=0.0,
                          weights={'addLoose': 20, 'addPacked': 14, 'packAll': 16, 'repack': 22, 'clean': 5}),
     'delete': dict(pool=10, sizes='small', nops=(8, 26), two=0.0, thresholds=0.5,
-                   weights={'addLoose': 20, 'addPacked': 18, 'packAll': 12, 'delete': 20, 'repack': 10, 'repackOne': 6, 'clean': 5, 'loosen': 4, 'reopen': 2}),
+                   weights={'addLoose': 20, 'addPacked': 18, 'packAll': 12, 'delete': 20, 'repack': 10, 'repackOne': 6, 'clean': 5, 'loosen': 4, 'reopen': 2, 'plantDup': 7}),
     'appendonly': dict(pool=10, sizes='small', nops=(10, 30), two=0.4, small_target=0.85,
                        weights={'addLoose': 24, 'addPacked': 24, 'packAll': 14, 'clean': 7, 'import': 10, 'reopen': 8, 'loosen': 3}),
     'import': dict(pool=10, sizes='small', nops=(8, 22), two=1.0, thresholds=0.3,
